@@ -665,5 +665,39 @@ int main(int argc, char **argv)
         }
         if(!g_stop) g_done += "longsep ";
     }
+    // ---- time stamps with decimal fractions: every 1..3 digit fraction >= 2^-8, and 33-digit fractions just below / at / just above the
+    // midpoint between two adjacent floats (a correctly rounded conversion must land on the nearer float; at the tie on the even one)
+    {
+        std::vector<std::string> fr;
+        for(int d = 1; d <= 3; ++d) { int n = d == 1 ? 10 : d == 2 ? 100 : 1000; for(int k = 0; k < n; ++k) { char b[8]; snprintf(b, sizeof b, "%0*d", d, k); if(atof((std::string("0.") + b).c_str()) >= 0.00390625 || k == 0) fr.push_back(b); } }
+        const size_t n_short = fr.size();
+        auto dec33 = [](unsigned __int128 k) {       // k / 2^33 as 33 decimal digits (exact)
+            unsigned __int128 p = 1; for(int i = 0; i < 33; ++i) p *= 5;
+            unsigned __int128 v = k * p; std::string d(33, '0'); for(int i = 32; i >= 0; --i) { d[i] = (char)('0' + (int)(v % 10)); v /= 10; } return d; };
+        for(float f : {0.5f, 0.75f, 0.1f, 0.3f, 0.99999994f, 0.00390625f, 0.6f, 0.2f}) {
+            uint64_t a = (uint64_t)ldexp((double)f, 33), b = (uint64_t)ldexp((double)nextafterf(f, 1.0f), 33), m = (a + b) / 2;   // all exact: f >= 2^-8 has its bits above 2^-32
+            fr.push_back(dec33(m)); { std::string x = dec33(m); x += "1"; fr.push_back(x); } { std::string x = dec33(m - 1); x += "9999"; fr.push_back(x); }
+            fr.push_back(dec33(a)); fr.push_back(dec33(a).substr(0, 17));
+        }
+        vp::bound("time_fractions", std::to_string(n_short) + " fractions of 1..3 decimal digits (>= 2^-8) and " + std::to_string(fr.size() - n_short) + " long fractions at / next to the midpoint of two adjacent floats; denotation = the correctly rounded float (libc strtof) as a 32-bit fraction");
+        idx = 0;
+        for(auto &f : fr) for(int msg = 0; msg < 2; ++msg) {
+            uint64_t top = g_top++, my = idx++;
+            if(g_stop || !vp::mine(top)) continue;
+            std::string cid = "timefrac:" + std::to_string(my);
+            if(!vp::want(cid)) continue;
+            vp::current_case() = cid; vp::state(); vp::eval(); vp::nontrivial(vp::fnv(cid));
+            float want = strtof(("0." + f).c_str(), nullptr);
+            if(!(want < 1.0f)) continue;                 // a fraction that rounds up to 1: not generated
+            uint32_t sf = (uint32_t)(uint64_t)ldexp((double)want, 32);
+            std::string text = "2016-11-16 19:44:06." + f;
+            Verdict v = check_text(text, {pf::Tt(pf::utc_secs(2016, 11, 16, 19, 44, 6), sf)}, false, msg, false);
+            vp::trace();
+            if(vp::replaying()) fprintf(stderr, "replay %s: text=<%s> verdict: %s %s\n", cid.c_str(), text.c_str(), CLAUSE[v.c], v.detail.c_str());
+            vp::outcome(std::string("timefrac|") + CLAUSE[v.c]);
+            if(v.c != OK) vp::violation(std::string(CLAUSE[v.c]) + "|" + (msg ? "message" : "arg_vals") + "|t:date-fraction," + (f.size() <= 3 ? "short-decimal" : "long-decimal-near-float-midpoint"), cid, v.detail + "; text=<" + text + ">");
+        }
+        if(!g_stop) g_done += "timefrac ";
+    }
     return vp::finish();
 }
